@@ -97,6 +97,42 @@ def _map_struct(t):
   return 0
 
 
+def _flat(d, prefix=()):
+  out = {}
+  for k, v in d.items():
+    if isinstance(v, dict):
+      out.update(_flat(v, prefix + (k,)))
+    else:
+      out[prefix + (k,)] = v
+  return out
+
+
+def _check_state_algebra(a, b):
+  """nnx State: a - b keeps exactly the flat paths of a that are absent from b (with a's leaves);
+  merge_state(a, b) is the union of paths with the later state winning; split/merge of flat states are inverse"""
+  from flax import nnx
+  from flax.nnx import statelib
+  fa, fb = _flat(a), _flat(b)
+  if not fa:
+    return None
+  sa, sb = nnx.State(a), nnx.State(b)
+  want = {p: v for p, v in fa.items() if p not in fb}
+  for name, fn in (('a - b', lambda: sa - sb), ('statelib.diff', lambda: statelib.diff(sa, sb))):
+    got = dict(nnx.to_flat_state(fn()))
+    if got != want:
+      return f'{name}: flat paths {sorted(got)} with values {got}, expected exactly the paths of a absent from b: {want}'
+  back = nnx.from_flat_state(nnx.to_flat_state(sa))
+  if dict(nnx.to_flat_state(back)) != fa:
+    return 'from_flat_state(to_flat_state(a)) differs from a'
+  allp = set(fa) | set(fb)
+  if any(p != q and q[:len(p)] == p for p in allp for q in allp):
+    return None    # a leaf on one side where the other has a sub-state: the union of paths is not a tree (merge not specified)
+  merged = dict(nnx.to_flat_state(nnx.merge_state(sa, sb)))
+  if merged != {**fa, **fb}:
+    return f'merge_state(a, b) gives {merged}, expected the union of paths with b winning: {({**fa, **fb})}'
+  return None
+
+
 def run(tier, seed):
   depth = 2 if tier == 'quick' else 3
   trees = [t for t in _trees(depth) if isinstance(t, dict)]
@@ -120,11 +156,26 @@ def run(tier, seed):
     if msg:
       fails.append(dict(inputs=dict(tree=repr(t), api='path_aware_map'), observed=msg[:400], violated='path-aware-map'))
       break
-  return dict(name=NAME, cases=cases, distinct=len(trees), bound=f'all nested dicts of depth <= {depth}, <= 2 keys/level from {{a,b,c}}, leaves {{0,(),"x",{{}}}}',
+  if not fails:
+    # State algebra on pairs of small nested states, including a sub-state on one side where the other has a leaf
+    pool = [{'a': 1}, {'a': 1, 'b': 2}, {'a': {'x': 1, 'y': 2}, 'b': 3}, {'a': {'x': 5}}, {'a': 7, 'c': {'z': 1}}, {'a': {'x': {'deep': 1, 'other': 2}}, 'out': 3},
+            {'a': {'x': 9}}, {'norm': {'scale': {'gamma': 1, 'beta': 2}}, 'out': 3}, {'norm': {'scale': 5}}, {}]
+    for a, b in itertools.product(pool, repeat=2):
+      cases += 1
+      try:
+        msg = _check_state_algebra(a, b)
+      except Exception as e:  # noqa
+        msg = f'raised {e!r}'
+      if msg:
+        fails.append(dict(inputs=dict(a=repr(a), b=repr(b), api='nnx.State diff/merge'), observed=msg[:400], violated='state-algebra'))
+        break
+  return dict(name=NAME, cases=cases, distinct=len(trees), bound=f'all nested dicts of depth <= {depth}, <= 2 keys/level from {{a,b,c}}, leaves {{0,(),"x",{{}}}}; State diff/merge on 10 x 10 small nested states',
               exhaustive=True, failures=fails[:2], error=None)
 
 
 def replay(inputs):
+  if inputs.get('api') == 'nnx.State diff/merge':
+    return _check_state_algebra(eval(inputs['a']), eval(inputs['b'])) is None
   t = eval(inputs['tree'])
   if inputs.get('api') == 'path_aware_map':
     return _check_path_aware(t) is None
